@@ -206,6 +206,9 @@ where
         chunk: Vec<Entry>,
     ) -> Result<Vec<ApplyResult>> {
         let _timer = ScopedTimer::new("apply_chunk");
+        // drop entries that an earlier (duplicate) dispatch already applied
+        let applied = self.last_applied.load(Ordering::Acquire);
+        let chunk: Vec<Entry> = chunk.into_iter().filter(|e| e.index > applied).collect();
 
         // Use a timer to measure latency and count chunks
         let start = Instant::now();
